@@ -20,7 +20,8 @@ Definition model_check (n : node) (p : pool) (o : obs) : list Z :=
   chk 8 (forallb (fun '(k, r) => eqb_option Z.eqb (q_block_by_seq n k) r) (ob_bseq o) &&
          forallb (fun '(lo, hi, l) => eqb_list Z.eqb (q_blocks_in_range n lo hi) l) (ob_brange o) &&
          forallb (fun '(num, l) => eqb_list Z.eqb (q_last_blocks n num) l) (ob_blast o) &&
-         forallb (fun '(sq, ct, l) => eqb_list Z.eqb (q_blocks_since n sq ct) l) (ob_bsince o)).
+         forallb (fun '(sq, ct, l) => eqb_list Z.eqb (q_blocks_since n sq ct) l) (ob_bsince o)) ++
+  chk 11 (forallb (fun '(api, args, r) => eqb_option (eqb_list eqb_brow) (q_bq n api args) r) (ob_bq o)).
 (* runs a history; returns (step index, failing codes) of the first step that differs *)
 Fixpoint model_steps (i : Z) (n : node) (steps : list hstep) : list (Z * list Z) :=
   match steps with
